@@ -159,13 +159,30 @@ Proof.
   intros H; inversion H; subst. eapply index_ok_in; eauto.
 Qed.
 
-Lemma rand_uint32_np : forall s, (os_v4 s = true -> os_hostbits s < 32) -> rand_uint32_ipv4 s <> Panic.
+Lemma rand_uint32_np : forall s, rand_uint32_ipv4 s <> Panic.
 Proof.
-  intros s H. unfold rand_uint32_ipv4. destruct (os_v4 s); cbn; [|discriminate].
-  specialize (H eq_refl). destruct (32 <=? os_hostbits s) eqn:E; [lia|].
+  intros s. unfold rand_uint32_ipv4, rand_uint32_ipv4_gen. destruct (os_v4 s); cbn [negb]; [|discriminate].
+  cbn [andb].
+  set (h := if 32 <=? os_hostbits s then 0 else 2 ^ os_hostbits s).
+  destruct (h =? 0) eqn:E; [discriminate|].
   unfold rand_int_guard.
-  destruct (Z.of_N (2 ^ os_hostbits s) <=? 0)%Z eqn:E2; cbn; [|discriminate].
-  assert (0 < 2 ^ os_hostbits s) by (apply N.neq_0_lt_0; apply N.pow_nonzero; discriminate). lia.
+  destruct (Z.of_N h <=? 0)%Z eqn:E2; cbn; [|discriminate].
+  exfalso. lia.
+Qed.
+
+Lemma existsb_eqb_in : forall id ids, In id ids -> existsb (Z.eqb id) ids = true.
+Proof.
+  intros id ids H. apply existsb_exists. exists id. split; auto. apply Z.eqb_refl.
+Qed.
+
+Lemma try_from_id_np : forall ids id,
+  (forall i, (0 <= i < Z.of_nat (length ids))%Z -> In i ids) -> try_from_id ids id <> Panic.
+Proof.
+  intros ids id H. unfold try_from_id, try_from_id_gen.
+  destruct ((Z.of_nat (length ids) =? 0)%Z || (id <? -1)%Z || (Z.of_nat (length ids) <=? id)%Z) eqn:E; [discriminate|].
+  destruct (id =? -1)%Z eqn:E1.
+  - unfold rand_int_guard. destruct (Z.of_nat (length ids) <=? 0)%Z eqn:E2; cbn; [|discriminate]. exfalso. lia.
+  - rewrite existsb_eqb_in; [discriminate|]. apply H. lia.
 Qed.
 
 Theorem process_bd_req_np : forall cfg o w,
@@ -188,7 +205,7 @@ Proof.
   apply bind_np; [np|]. intros _ _.
   apply bind_np; [np; apply get_dst_port_np|]. intros port _.
   destruct (rp_enforce cfg) eqn:Een; cbn [negb]; [|discriminate].
-  destruct (He eq_refl) as (Hex & Hmw & Hpw & Hms & Hps).
+  destruct (He eq_refl) as (Hex & Hmw & Hpw & Hids).
   apply bind_np.
   { apply exclusions_ok_np. destruct (ro_excluded o); auto. apply Forall_firstn; auto. }
   intros _ _. destruct (isSome (ro_excluded o)); [discriminate|].
@@ -198,23 +215,16 @@ Proof.
     apply bind_np; [apply pick_subnet_np; auto|].
     intros [s|] Hs; [|discriminate].
     destruct (os_nil s) eqn:En; [discriminate|].
-    apply bind_np; [|intros; discriminate].
-    apply rand_uint32_np. intros Hv4.
-    apply pick_subnet_in in Hs. rewrite Forall_forall in Hms. apply (Hms s Hs En Hv4). }
+    apply bind_np; [apply rand_uint32_np|intros; discriminate]. }
   destruct (getn (cs_transport c) =? 4); [|discriminate].
   destruct (getb (cs_disable c) || negb (ro_take_override o)); [discriminate|].
   destruct (rp_prefix_subnets cfg) as [|s0 rest] eqn:Esub; [discriminate|]. rewrite <- Esub in *.
   apply bind_np; [apply pick_subnet_np; auto|].
   intros [s|] Hs; [|discriminate].
   destruct (os_nil s) eqn:En; [discriminate|].
-  apply pick_subnet_in in Hs. rewrite Forall_forall in Hps. specialize (Hps s Hs En).
-  apply bind_np; [apply rand_uint32_np; intros Hv; apply (Hps Hv)|].
+  apply bind_np; [apply rand_uint32_np|].
   intros ok Hok. destruct ok; cbn [negb]; [|discriminate].
-  assert (os_v4 s = true) as Hv.
-  { unfold rand_uint32_ipv4 in Hok. destruct (os_v4 s); [reflexivity|]. cbn in Hok. inversion Hok. }
-  destruct (Hps Hv) as [_ Hp].
-  destruct (os_prefix s) as [|p]; [discriminate|].
-  destruct p; try discriminate; lia.
+  apply bind_np; [apply try_from_id_np; exact Hids|]. intros; discriminate.
 Qed.
 
 Theorem process_c2s_wrapper_np : forall cfg w, wf_rpcfg cfg -> process_c2s_wrapper cfg w <> Panic.
